@@ -20,6 +20,7 @@ import importlib.machinery
 import importlib.util
 import json
 import os
+import random
 import re
 import shutil
 import subprocess
@@ -50,10 +51,15 @@ RULE = ("Every run is driven per INVOCATION of the real main(): the operator mod
         "gives it; no prospective invocation launches steps of two iterations); "
         "run-repaired (the same with the one-line repair applied to an in-memory copy of the script, model parameter "
         "fixed=1); one- and two-plate screens with batch sizes 1-4 (all single crash points); "
-        "torn (an entry [k, order, 1]: the interruption comes WHILE publication k-4 is under way; if that file is screen_metadata.json it is left holding the first half of its text - "
+        "torn (an entry [k, order, 1]: the interruption comes WHILE event k-4 of the pipeline run is under way; if that is the publication of screen_metadata.json the file is left holding the first half of "
+        "its text; if it is the run's own wrap-up after its last publication every file is whole but the exit status is not 0 (the call of run_next_* does not return, the step counts as complete) - "
         "every step of every configuration x every admissible order, plus combinations with ordinary crashes - against Orchestrate.script_session_t and judged like run; the operator reruns "
-        "after an exception that names nothing); torn-repaired (the same schedules with `except ValueError: return None` around json.load applied in memory, model parameter tfix=1: whatever else "
-        "goes wrong around a torn marker is reported on its own); "
+        "after an exception that names nothing; model parameter tfix = what the probe of the real validate_job_dir_and_return_meta says, 1 on /repo since the repair: an unreadable marker is named "
+        "like a missing one); torn-repaired (only on a tree WITHOUT that repair: the same schedules with it applied in memory, tfix=1); "
+        "marker (validate_job_dir_and_return_meta itself on a job directory whose screen_metadata.json is missing / whole / cut at every position class / empty / not UTF-8 / a JSON document that is "
+        "no dict / a dict without n_unobserved_plates / a dict with further keys - against Orchestrate.valid_meta and judged directly: the dict iff it is one with the key, else None, never an exception); "
+        "examine-torn (random trees as for examine with a random subset of the marker files replaced by such unreadable / key-less contents, against Orchestrate.examine_t on the world (tree, those "
+        "directories) and judged directly: the answer must be the answer on the same tree with those marker files DELETED); "
         "async (publication orders that data dependence alone would exclude - nextflow publishes asynchronously: every step with the marker published before advanced_screen.h5 and an interruption "
         "between the two, plus random permutations; model comparison AND the property predicate: the statement does not restrict the order); "
         "examine (random trees with gaps, unsorted / two-digit indices, missing markers, empty iteration directories "
@@ -100,13 +106,24 @@ THEOREMS = {
                           "complete - each call completes the next step, the first may be spent on naming the incomplete directory - and the completed steps are still a prefix of the never-interrupted run",
     "C19_retro_rerun_finishes": "so n - c + 1 uninterrupted calls after ANY crash history end in exactly the never-interrupted run (completed = crash_free)",
     "C19_torn_model_conservative": "the model with torn (present but unreadable) markers run without torn markers and tearing entries IS the model all other theorems are about",
-    "C19_torn_examine_raises_iff": "on a tree with torn markers the script as it is raises (JSONDecodeError, no directory named, nothing touched) exactly when the first problem examine meets is a directory whose "
-                                   "marker is torn - where a missing marker would have been named as 'invalid structure'",
+    "C19_torn_resume_correct": "THE PROPERTY on worlds with torn markers for the script as it is (tfix = true, which the translation proves): marker last + repaired examine (or batch size 1), EVERY schedule whose "
+                               "interruptions may also come WHILE a file is being published, both modes: the completed steps with their commands and selections are exactly the first k steps of the "
+                               "uninterrupted run (retrospective: k <= n_plates) and no call ever ends in an exception that names no directory",
+    "C19_torn_step_safe": "C19_step_safe on those worlds: one more call from any reachable world keeps the completed steps, adds at most the next, launches only the uninterrupted run's command for the first "
+                          "incomplete step, names only incomplete directories, never fails without naming one",
+    "C19_torn_marker_is_named": "a reachable world holds at most one torn marker, in the directory of the first step that is not complete; the next call, whatever its entry, names exactly that directory as "
+                                "'invalid structure'; after the operator's removal no torn marker is left and no completed step is lost",
+    "C19_torn_retro_progress": "C19_retro_progress on those worlds: after m further uninterrupted calls at least min(n, c + m - 1) steps are complete and no torn marker is left - the call that names the torn "
+                               "directory is the one an incomplete directory costs anyway",
+    "C19_torn_retro_rerun_finishes": "so n - c + 1 uninterrupted calls after ANY history of interruptions, torn marker or not, end in exactly the never-interrupted run",
+    "C19_torn_repaired_is_missing_marker": "the script as it is (unreadable marker = no marker): examine on a well-formed torn world IS the model's examine on its tree component - the torn directory is named like an incomplete one",
+    "C19_torn_repaired_names_torn_or_is_examine": "on ANY world it answers as the model's examine on the tree component or names a directory that holds a torn marker as 'invalid structure'",
+    "C19_torn_repaired_never_raises": "the script as it is never raises out of examine, whatever is torn",
+    "C19_torn_examine_raises_iff": "the script BEFORE the repair (tfix = false): on a world with torn markers it raised (JSONDecodeError, no directory named, nothing touched) exactly when the first problem examine "
+                                   "meets is a directory whose marker is torn - where a missing marker would have been named as 'invalid structure'",
     "C19_torn_raise_is_permanent": "a raising examine strands the script: every further call raises the same exception, changes nothing, names nothing",
-    "C19_resume_refuted_torn_marker": "REFUTED (script of /repo, marker last everywhere): retrospective, batch size 1, 3 plates, the run of step (1,0) interrupted WHILE the marker is being published -> "
-                                      "for every number of reruns: the same exception, no directory named, step (1,0) never completed",
-    "C19_torn_repaired_is_missing_marker": "with the repair (unreadable marker = no marker) examine on a torn tree IS the model's examine on its tree component: the torn directory is named like an incomplete one",
-    "C19_torn_repaired_never_raises": "with the repair examine never raises, whatever is torn",
+    "C19_resume_refuted_torn_marker": "REFUTED for the script before the repair (tfix = false; the witness of what `fix:` removed): retrospective, batch size 1, 3 plates, the run of step (1,0) interrupted WHILE the "
+                                      "marker is being published -> for every number of reruns: the same exception, no directory named, step (1,0) never completed",
     "C19_resume_refuted_marker_before_advanced": "REFUTED without marker_last in RETROSPECTIVE mode: marker published before advanced_screen.h5, interruption between the two -> step (1,0) is started from the "
                                                  "training screen of (0,0) instead of its advanced screen and selects plate 0 a second time",
     "C19_marker_before_advanced_strands": "the same inside a batch (batch size 2, plate 1): no screen is found, TypeError that names nothing; for every number of reruns no further step is completed",
@@ -118,18 +135,31 @@ THEOREMS = {
     "C19_nf_publish_dir_is_outdir": "every nextflow/config/*.config that sets publishDir sets it to ${params.outdir} (the --outdir of the script's command line) and every module writes under ${meta.id}: one directory level below the job directory",
     "C19_nf_excludes_chain": "how --excludes=a,b reaches the policy (C16's batch): next_batch_plate splits params.excludes on the separator the script joins with; it is the tuple element the sub-workflow picks "
                              "for SELECT_NEXT_PLATE's `excludes` input; the module passes the ids blank-separated after --batch-plate-id, which select_next_plate's own option table declares nargs='+' type=int dest batch_plate_id",
-    "C19_model_is_source_examine": "the WHOLE function examine_output_dir_to_determine_current_iteration of /repo's script, re-translated into Gallina on every run, equals the model's examine with "
-                                   "fixed = true for every tree and batch size: both filtered + numerically sorted globs, the `continue` on an iteration directory without plate directories, current_plate_idx = 0, "
-                                   "the enumerate loop with its two raises and the directory each names, the leaked plate_dir, the next-step arithmetic, both returns",
+    "C19_model_is_source_examine_on_torn_worlds": "the WHOLE function examine_output_dir_to_determine_current_iteration of /repo's script, re-translated into Gallina on every run and run on a world (tree, set of job "
+                                                  "directories whose marker file is unreadable; the translated validate_job_dir_and_return_meta gets the marker files its glob finds there), equals the model's "
+                                                  "examine_t with tfix = true and fixed = true for every tree, torn set and batch size: both filtered + numerically sorted globs, the `continue` on an iteration "
+                                                  "directory without plate directories, current_plate_idx = 0, the enumerate loop with its two raises and the directory each names, the leaked plate_dir, the "
+                                                  "next-step arithmetic, both returns; the metadata handed on is a dict with the key n_unobserved_plates",
+    "C19_model_is_source_examine": "the same without torn markers: the model's examine with fixed = true",
     "C19_model_is_source_examine_determines_fixed": "the translation determines the model parameter: src_examine = examine fixed for all inputs IFF fixed = true",
+    "C19_model_is_source_examine_determines_repairs": "... and both parameters: src_examine = examine_t tfix fixed for all worlds IFF tfix = true and fixed = true (the source carries both repairs and no other)",
     "C19_model_is_source_examine_not_unrepaired": "the translated examine differs from the unrepaired model (fixed = false) on the tree of C19_resume_refuted_empty_iter's witness (iter_1 created but empty)",
+    "C19_model_is_source_examine_not_raising_on_torn_marker": "... and from the model before the torn-marker repair (tfix = false) on the world C19_resume_refuted_torn_marker's witness leaves behind: there it names "
+                                                              "iter_1/plate_0 where the old script raised",
     "C19_model_is_source_run_next_retrospective_step": "the WHOLE function run_next_retrospective_step, re-translated on every run (it calls the translated examine): for every tree and batch size its result - "
                                                        "`return False` before anything is touched / the file-system actions in program order (rmtree, makedirs = two levels) ending in the launch and `return True` / "
                                                        "the exception raised after those actions (no test screen, no thetas or distance chunks, None in a command line) / the named directory - is the model's plan_of Retro",
     "C19_model_is_source_run_next_prospective_step": "the same for run_next_prospective_step = plan_of Prosp; its return value is current_plate_idx < batch_size - 1",
+    "C19_model_is_source_run_next_steps_on_torn_worlds": "both functions on a world with torn markers = step_result_t: the translated examine decides whether a directory is named (a torn marker's like a missing "
+                                                         "marker's), otherwise the call is the model's plan on the tree component - how attempt_t is built; meta['n_unobserved_plates'] never raises "
+                                                         "(KeyError / TypeError unreachable: the metadata examine hands on has the key)",
     "C19_model_is_source_call_returns": "whenever the model's call_returns says a call handed b back to main(), b is the value the translated run_next_* returns",
+    "C19_model_is_source_call_returns_on_torn_worlds": "the same for the model's attempt_t (tfix = true) on a world with torn markers",
     "C19_model_is_source_get_screen_from_job_output": "the whole helper (called by the translated examine): advanced_screen.h5 if there is one, else training.screen.h5, else None = the model's screen_of",
-    "C19_model_is_source_validate_job_dir_and_return_meta": "the whole helper (called by the translated examine): None without screen_metadata.json, else the loaded metadata = f_meta",
+    "C19_model_is_source_validate_job_dir_and_return_meta": "the whole helper (called by the translated examine), for EVERY list of marker files its glob may match, whatever they hold: None without a match; else "
+                                                            "the first match decides - the loaded document if it is a dict with the key n_unobserved_plates, None if json.load raises ValueError (the `except`), "
+                                                            "if the document is no dict, if the key is missing",
+    "C19_model_is_source_validate_job_dir_in_world": "in a world (tree, torn set): None for a directory whose marker is torn, else the metadata the tree records (f_meta)",
     "C19_model_is_source_get_test_screen_from_job_output": "the whole helper (called by the translated retrospective step): it globs for training.screen.h5 = the model's has_training / SFile s KTraining",
     "C19_model_is_source_get_theta_and_dist_chunks": "the whole helper (called by both translated steps): ValueError unless thetas and distance chunks are both present = has_thetas_dist / AFail 2",
     "C19_model_is_source_get_selected_plates": "the whole helper (called by both translated steps): the contents of the selected_plate files of the iteration, None when there are none = selected_plates",
@@ -196,7 +226,8 @@ ASSUMPTIONS = [
     "file content is abstract (a screen = list of unobserved plate ids; selection = first unobserved plate not excluded); the script itself only reads "
     "n_unobserved_plates and the selected_plate text",
     "kinds run / run-repaired / async: a published file appears atomically (the fake writes a temporary file and renames it).  kinds torn / torn-repaired drop this for the one file "
-    "the script parses: screen_metadata.json may be left holding a prefix of its text; other files are never torn (the script only globs for them / reads selected_plate as text)",
+    "the script parses: screen_metadata.json may be left holding a prefix of its text; other files are never torn (the script only globs for them / reads selected_plate as text).  "
+    "A marker that json.load accepts and that is a dict with the key n_unobserved_plates counts as whole whatever else it holds (a prefix of the marker's text never is one)",
     "'records the same selection' (clause a) is about the ORCHESTRATION: model and fake compute a step's selection as a function of the content of its input files.  Of the real pipeline this holds "
     "only if train_model / calculate_scores / select_next_plate are deterministic in their inputs and seed, which is property C18 (whose known findings - Gibbs blocks drawing from the global "
     "generator - mean that a re-executed step may select another plate than the never-interrupted run would have): C19 depends on C18 here and does not re-establish it",
@@ -215,9 +246,11 @@ EXPLANATION = ("NEXTFLOW SIDE (C19_nf_*, C19_script_globs_*): harness/nf_reader.
                "of select_next_batch_plate, input tuple and exclude_flag of select_next_plate), writes Generated/SrcNfOutputs.v on every run; anything outside the accepted shapes is refused (broken obligation).  "
                "TRUSTED: that reader, fnmatch-style matching with * (Model/NfFiles.glob_match), and that `meta.id` is one path component.  NOT read: which processes each workflow includes (the model's `expected`), "
                "the nf-core publishDir mode (copy / symlink), nextflow's own semantics.  The fake nextflow publishes under the names the reader finds in the tree under test.  "
-               "TORN MARKERS: Model/Orchestrate.v (last section) extends the tree by the set of directories whose screen_metadata.json exists but cannot be read, examine_t raises there (tfix=0, the script today) "
-               "or treats it as missing (tfix=1, the repair); C19_torn_model_conservative ties it to the model of all other theorems; C19_resume_refuted_torn_marker is the finding, replayed on the real script "
-               "(known finding torn-marker-strands-script).  Model: Model/Orchestrate.v (calls: attempt/script_run; invocations of main(): call_returns/invocation/op_screen/script_session).  "
+               "TORN MARKERS: Model/Orchestrate.v (section 'torn completion markers') extends the tree by the set of directories whose screen_metadata.json exists but cannot be read; examine_t treats such a "
+               "marker as missing (tfix=1: the script of /repo since the `fix:` of finding torn-marker-strands-script - validate_job_dir_and_return_meta catches json.load's ValueError and demands a dict with the key "
+               "n_unobserved_plates; PROVED from the translation: C19_model_is_source_examine_determines_repairs) or raises there (tfix=0: the script before it, kept for C19_resume_refuted_torn_marker); "
+               "C19_torn_model_conservative ties it to the model of all other theorems; C19_torn_resume_correct / _step_safe / _marker_is_named / _retro_progress are the property on these worlds.  The harness "
+               "JUDGES runs with torn markers like every other run (a script that dies without naming a directory is a violation; PROBED_TFIX only selects the model variant compared with).  Model: Model/Orchestrate.v (calls: attempt/script_run; invocations of main(): call_returns/invocation/op_screen/script_session).  "
                "The invocation-level theorems (C19_invocation_*, C19_retro_*, C19_uninterrupted_*) say when main() stops and which operator screen every launch reads; the harness "
                "checks the same two things on the real main() (clauses wrong-operator-screen, invocation-crosses-batch) and compares the invocation log exactly.  "
                "The theorems are proved for the script WITH the one-line repair of examine (model parameter fixed=true) or batch "
@@ -226,8 +259,8 @@ EXPLANATION = ("NEXTFLOW SIDE (C19_nf_*, C19_script_globs_*): harness/nf_reader.
                "SOURCE LINK (C19_model_is_source_*): examine_output_dir_to_determine_current_iteration, run_next_retrospective_step, run_next_prospective_step and the helpers they call "
                "(get_screen_from_job_output, validate_job_dir_and_return_meta, get_test_screen_from_job_output, get_theta_and_dist_chunks, get_selected_plates) are re-translated as WHOLE functions "
                "from /repo's nextflow/scripts/batchie.py into Gallina on every run (harness/py2gal.py, configurations C19_* in harness/src_functions.py -> coq/theories/Generated/SrcOrchestrate.v; a translated "
-               "caller calls the translated callee) and proved equal to Orchestrate.examine with fixed = true / to plan_of (and call_returns) / to screen_of, f_meta, has_training, has_thetas_dist, selected_plates "
-               "for all inputs; the translation, not the start-up probe, fixes the model parameter (C19_model_is_source_examine_determines_fixed).  Loops, continue, both raises and the directory they name, "
+               "caller calls the translated callee) and proved equal to Orchestrate.examine_t with tfix = fixed = true (examine without torn markers) / to step_result_t, plan_of (and call_returns) / to screen_of, valid_meta, has_training, has_thetas_dist, "
+               "selected_plates for all inputs; the translation, not the start-up probes, fixes the model parameters (C19_model_is_source_examine_determines_repairs).  Loops, continue, both raises and the directory they name, "
                "the Optionals, the leaked loop variable, the arithmetic, the early `return False`, the order of the file-system actions and of the checks after them, the no-match tests and None returns of "
                "the helpers come from the translation.  TRUSTED by the link: the translator (incl. its new keys tail_dup - the statements after an `if` that may return are the tail of both branches - and "
                "retype - a variable re-used at a second declared type; the exception monad Orchestrate.sres) and these primitives.  A path is the model value it denotes: output directory = the tree; a globbed "
@@ -235,10 +268,16 @@ EXPLANATION = ("NEXTFLOW SIDE (C19_nf_*, C19_script_globs_*): harness/nf_reader.
                "one component: the index i) together with the tree it is resolved in.  examine: glob.glob(output_dir + '/iter_*') = the tree's entries, glob.glob(d + '/plate_*') = d's plate directories, "
                "os.path.isdir = True (the model tree holds directories only), sorted(l, key=dir_sort_key) = the model's insertion sort by index (sort_dirs; equal indices such as iter_1 / iter_01 are not kept "
                "in glob order), dir_sort_key(path) = its index.  Helpers: list(glob.glob(os.path.join(dir, '*', NAME))) for NAME = advanced_screen.h5 / training.screen.h5 / thetas*.h5 / "
-               "distance_matrix_chunk*.h5 = the one-or-no file of that kind in the job directory (the <name> level is abstracted), for screen_metadata.json = [its n_unobserved_plates] or [], "
-               "glob 'plate_*/*/selected_plate' under an iteration = its recorded selections in plate order (glob order not modelled), len, l[0] (IndexError on []), open(path) / json.load / f.read().strip() = "
-               "the value the file holds, the dict get_theta_and_dist_chunks returns = the directory it names.  run_next_*: os.path.splitext(os.path.basename(input_screen)) = an unmodelled name, "
-               "meta['n_unobserved_plates'] = the metadata value, every read of the output directory = a read of the tree AFTER the actions done so far (tree_after); effects: shutil.rmtree(job dir) = ARmTree, "
+               "distance_matrix_chunk*.h5 = the one-or-no file of that kind in the job directory (the <name> level is abstracted), for screen_metadata.json (validate_initial_output_dir_and_get_result_files_as_dict only) = [its n_unobserved_plates] or [], "
+               "glob 'plate_*/*/selected_plate' under an iteration = its recorded selections in plate order (glob order not modelled), len, l[0] (IndexError on []), open(path) / f.read().strip() = "
+               "the value the file holds, the dict get_theta_and_dist_chunks returns = the directory it names.  validate_job_dir_and_return_meta: its job directory = the list of marker files the glob "
+               "matches (marker_dir; in examine's configuration marker_dir_of = what that glob finds in the world: a torn file for a step in the torn set, the whole file of f_meta, or none), a file = the JSON "
+               "document it holds or None (mfile), json.load = that option with None = it raises - and what it raises is a ValueError, the class the source's `except` names (translator key try_except_classes) -, "
+               "isinstance(o, dict) = a test on the document (jval: a dict with / without that key, or anything else), 'n_unobserved_plates' not in o = the key test on a dict and an EXCEPTION on anything else "
+               "(None, a list, a number: not a key test in Python), bound inside the branch of the `or` in which Python evaluates it (translator key short_circuit) - the link proves it is never reached, i.e. that the "
+               "isinstance test guards it.  run_next_*: os.path.splitext(os.path.basename(input_screen)) = an unmodelled name, "
+               "meta['n_unobserved_plates'] = the entry of the loaded document (jget_nup: KeyError / TypeError otherwise - proved unreachable), every read of the output directory = a read of the tree AFTER the "
+               "actions done so far (tree_after; examine, the one reader of marker files: tfs_after, with the torn set); main()'s link runs both functions on worlds without torn markers; effects: shutil.rmtree(job dir) = ARmTree, "
                "os.makedirs(job dir) = AMkIter then AMkPlate; t['thetas'] / t['dist_chunks'] = the two glob patterns under the directory t that get_theta_and_dist_chunks answered; the calls run_initial_plate / "
                "run_first_batch_plate / run_first_prospective_batch_plate / run_subsequent_batch_plate(keyword arguments) are calls of the TRANSLATED builders (each keyword's value coerced to the builder's parameter type); "
                "ignored: logger.info, os.makedirs(output_dir) (creation of the output directory itself is not modelled); extra_args / experiment_name are only handed on.  "
@@ -336,11 +375,12 @@ class _Proxy:
 
 _REPAIR_OLD = "        plate_dirs = sorted(plate_dirs, key=dir_sort_key)\n"
 _REPAIR_NEW = _REPAIR_OLD + "        if not plate_dirs:\n            continue\n"
-# the repair of the torn-marker finding: an unreadable marker (or one without the key the script reads) counts as no marker, so
-# examine names the directory as "invalid structure" and the operator removes it
+# the repair of the torn-marker finding (in /repo since its `fix:`; applied in memory only to a tree that lacks it): an unreadable marker
+# (or one that is not a dict with the key the script reads) counts as no marker, so examine names the directory as "invalid structure"
+# and the operator removes it
 _TORN_OLD = "        screen_metadata_obj = json.load(f)\n\n    return screen_metadata_obj\n"
-_TORN_NEW = ("        try:\n            screen_metadata_obj = json.load(f)\n        except ValueError:\n            return None\n"
-             "    if not isinstance(screen_metadata_obj, dict) or 'n_unobserved_plates' not in screen_metadata_obj:\n        return None\n"
+_TORN_NEW = ("        try:\n            screen_metadata_obj = json.load(f)\n        except ValueError:\n            screen_metadata_obj = None\n\n"
+             "    if not isinstance(screen_metadata_obj, dict) or 'n_unobserved_plates' not in screen_metadata_obj:\n        return None\n\n"
              "    return screen_metadata_obj\n")
 _PATCHES = {"repaired": [(_REPAIR_OLD, _REPAIR_NEW)], "torn-repaired": [(_TORN_OLD, _TORN_NEW)]}
 _mods = {}
@@ -524,6 +564,7 @@ class Runner:
         self.by = {}
         self.cur_k, self.cur_order, self.cur_logged = FULL, CANON, True
         self.cur_torn = 0
+        self.late_deaths = 0
         # entries [k, order, 1]: the interruption comes while publication number k-4 is under way (a torn marker, see the fake)
         self.tearing = any(len(e) > 2 and e[2] for e in self.sched)
         self.invocations = 0
@@ -680,6 +721,13 @@ class Runner:
                 rc = fake_module().main(cmd[1:], env)
                 if rc != 0:
                     raise subprocess.CalledProcessError(rc, cmd)
+            if rc == 0 and self.cur_torn and s is not None:
+                # tearing entry whose event number is one past the last publication: the run is interrupted in its own wrap-up
+                # (report, trace, clean-up) - every file is whole, the exit status is not 0
+                names = dict(((i, j), nm) for i, pls in self.scan() for j, nm in pls).get(s, set())
+                if p == sum(1 for k in self.cur_order if FILES[k] in names) + 1:
+                    self.late_deaths += 1
+                    raise subprocess.CalledProcessError(1, cmd)
         except subprocess.CalledProcessError as e:
             rc = e.returncode
             raise
@@ -940,10 +988,6 @@ def classify(mode, fails):
         # kept apart from the runs in which a marker was published before the selection, so that a run free of the known
         # finding is reported as the counterexample whenever there is one
         return "other:%s:%s%s" % (clause, mode, ":marker-published-early" if ev.get("marker_early") else "")
-    if clause == "script-raised" and ev.get("error") == "JSONDecodeError" and ev.get("torn_markers"):
-        # an interruption DURING the publication of screen_metadata.json leaves a marker json.load cannot read: the script dies in
-        # examine with an exception that names no directory, on every rerun
-        return "torn-marker-strands-script"
     if ev.get("marker_early") and mode == "prospective":
         return "prospective-marker-before-selection"
     if ev.get("marker_incomplete"):
@@ -974,6 +1018,59 @@ def probed_fixed():
         finally:
             shutil.rmtree(d, ignore_errors=True)
     return _probed
+
+
+_probed_t = None
+
+
+def probed_tfix():
+    """does the real validate_job_dir_and_return_meta treat a marker cut short as a missing one (None), or does json.load's
+    exception escape?  (selects the model variant the torn runs are COMPARED with; what the runs are JUDGED by does not depend on it)"""
+    global _probed_t
+    if _probed_t is None:
+        d = _tmpdir()
+        try:
+            write_tree(d, [[0, [[0, [[], 0, 0, 0, [], [], [1]]]]]])
+            with open(os.path.join(d, "iter_0", "plate_0", NAME, FILES[6]), "w") as f:
+                f.write('{"n_unobserved')
+            try:
+                _probed_t = 1 if load_script().validate_job_dir_and_return_meta(os.path.join(d, "iter_0", "plate_0")) is None else 0
+            except Exception:      # noqa: BLE001 - the exception escapes: the script before the repair
+                _probed_t = 0
+        finally:
+            shutil.rmtree(d, ignore_errors=True)
+    return _probed_t
+
+
+# the contents a screen_metadata.json may be found with: (class, text or bytes, wire encoding of the file for the model, what
+# validate_job_dir_and_return_meta must answer: None or the value of n_unobserved_plates)
+def marker_contents(m, rng):
+    whole = json.dumps({"n_unique_samples": 2, "n_unobserved_plates": m, "size": 12}, indent=4)
+    cut = rng.randint(1, len(whole) - 1)
+    return [
+        ("whole", whole, [2, m], m),
+        ("whole-only-key", json.dumps({"n_unobserved_plates": m}), [2, m], m),
+        ("cut", whole[:cut], [], None),
+        ("cut-before-last-brace", whole[:-1], [], None),
+        ("cut-inside-key", whole[:whole.index("n_unobserved") + 5], [], None),
+        ("empty", "", [], None),
+        ("blank", "\n", [], None),
+        ("trailing-garbage", whole + "}", [], None),
+        ("not-utf8", b"\xff\xfe" + whole.encode(), [], None),
+        ("json-list", "[%d]" % m, [0], None),
+        ("json-number", "%d" % m, [0], None),
+        ("json-null", "null", [0], None),
+        ("json-string-holding-the-key", '"n_unobserved_plates"', [0], None),
+        ("json-list-holding-the-key", '["n_unobserved_plates"]', [0], None),
+        ("dict-empty", "{}", [1], None),
+        ("dict-other-keys", json.dumps({"n_plates": m, "size": 3}), [1], None),
+    ]
+
+
+def put_marker(pdir, content):
+    os.makedirs(os.path.join(pdir, NAME), exist_ok=True)
+    with open(os.path.join(pdir, NAME, FILES[6]), "wb") as f:
+        f.write(content if isinstance(content, bytes) else content.encode())
 
 
 # --------------------------------------------------------------------------- generators
@@ -1081,7 +1178,7 @@ def gen(rng, tier):
     # marker's position among the files the step publishes in that order); every step of every configuration x every admissible
     # order, each run twice: the script as it is (kind torn) and with the repair applied in memory (kind torn-repaired: an
     # unreadable marker counts as no marker), so that anything ELSE that goes wrong around a torn marker is reported on its own
-    torn_ok = load_script("torn-repaired") is not None
+    torn_ok = load_script("torn-repaired") is not None and not probed_tfix()
     small = [(m, bs, n) for m in MODES for bs in (1, 2, 3, 4) for n in (1, 2)]
 
     def marker_pos(m, bs, c, order):
@@ -1101,6 +1198,10 @@ def gen(rng, tier):
                 yield d
                 if torn_ok:
                     yield dict(d, kind="torn-repaired")
+                if order == CANON or bs <= 2:
+                    # the interruption comes in the pipeline's wrap-up after its LAST publication (event number = files + 1): the step is
+                    # complete, the exit status is not 0, the call does not return
+                    yield dict(kind="torn", mode=m, bs=bs, n=n, sched=mk_sched(T, [(a, 4 + npubs(m, bs, a) + 1, order, 1)], tail=4), spawn=False)
     for _ in range(50 if quick else 800):
         # a torn marker plus one or two ordinary crashes; and tear flags on publications that are not the marker (no effect)
         m, bs, n = rng.choice(configs + small)
@@ -1109,7 +1210,9 @@ def gen(rng, tier):
         for _ in range(rng.randint(1, 3)):
             order = rng.choice(orders_for(m))
             a = rng.randint(0, T - 1)
-            if rng.random() < 0.6:
+            if rng.random() < 0.15:
+                cr.append((a if not cr else rng.randint(0, 2), 4 + npubs(m, bs, a if not cr else rng.randint(0, T - 1)) + 1, order, 1))
+            elif rng.random() < 0.6:
                 cr.append((a if not cr else rng.randint(0, 2), 4 + marker_pos(m, bs, rng.randint(0, T - 1), order), order, 1))
             else:
                 cr.append((a if not cr else rng.randint(0, 2), rng.randint(0, 11), order, rng.randint(0, 1)))
@@ -1117,6 +1220,14 @@ def gen(rng, tier):
         yield d
         if torn_ok:
             yield dict(d, kind="torn-repaired")
+    # validate_job_dir_and_return_meta on every class of marker content; examine on random trees with such markers
+    for m in (0, 1, 3):
+        for idx in range(len(marker_contents(m, rng))):
+            yield dict(kind="marker", m=m, which=idx, seed=rng.randint(0, 10 ** 6))
+    yield dict(kind="marker", m=0, which=None, seed=0)
+    for _ in range(150 if quick else 2500):
+        yield dict(kind="examine-torn", bs=rng.choice([0, 1, 1, 2, 2, 3, 4]), tree=rand_tree(rng), seed=rng.randint(0, 10 ** 6),
+                   p=rng.choice([0.15, 0.3, 0.6]))
     # one- and two-plate screens (the theorems cover them; batch sizes larger than the number of plates included): all single crash points
     cnt2 = 0
     for m, bs, n in small:
@@ -1359,7 +1470,7 @@ def run(desc):
         if any(e[1] != CANON for e in sched):
             feats.append("non-canonical-order")
         if r.tearing:
-            feats.append("marker-torn" if any(ev.get("torn_markers") for ev in r.events) else "tear-flag-without-effect")
+            feats.append("marker-torn" if any(ev.get("torn_markers") for ev in r.events) else "late-death" if r.late_deaths else "tear-flag-without-effect")
         if desc.get("spawn"):
             feats.append("spawned-fake")
         if any(g[0] == 0 for g in r.log):
@@ -1377,7 +1488,8 @@ def run(desc):
         if len({rec[0] for rec in r.ilog}) > 1:
             feats.append("operator-screens>=2")
         if tearing:
-            wire = [8, int(k == "torn-repaired"), MODES.index(mode), fixed, bs, n, [[e[0], e[1], int(len(e) > 2 and bool(e[2]))] for e in sched]]
+            tfix = 1 if k == "torn-repaired" else probed_tfix()
+            wire = [8, tfix, MODES.index(mode), fixed, bs, n, [[e[0], e[1], int(len(e) > 2 and bool(e[2]))] for e in sched]]
             return dict(wire=wire, impl=impl, pred=pred, features=feats, cmp=cmp_torn, sig=sig)
         wire = [4, MODES.index(mode), fixed, bs, n, [], [[kk, o] for kk, o in sched]]
         return dict(wire=wire, impl=impl, pred=pred, features=feats, cmp=cmp_run, sig=sig)
@@ -1423,6 +1535,85 @@ def run(desc):
             + (["two-digit-index"] if any(i >= 10 for i, _ in tree) else []) + (["named-dir"] if impl[0] == 1 else [])
         wire = [0, probed_fixed(), bs, [[i, [[j, pd + [[]]] for j, pd in pls]] for i, pls in tree]]
         return dict(wire=wire, impl=impl, pred=None, features=feats)
+    if k == "marker":
+        m, which = desc["m"], desc["which"]
+        d = _tmpdir()
+        try:
+            pdir = os.path.join(d, "iter_0", "plate_0")
+            os.makedirs(os.path.join(pdir, NAME))
+            if which is None:
+                cls, enc, want = "missing", None, None
+            else:
+                cls, content, enc, want = marker_contents(m, random.Random(desc["seed"]))[which]
+                put_marker(pdir, content)
+            try:
+                res = load_script().validate_job_dir_and_return_meta(pdir)
+                impl = [] if res is None else [res["n_unobserved_plates"]] if isinstance(res, dict) and "n_unobserved_plates" in res else ["?", common.short(res, 100)]
+                pred = None
+                if want is None and res is not None:
+                    pred = "a screen_metadata.json that is %s was accepted as a completion marker: %s" % (cls, common.short(res, 200))
+                elif want is not None and (not isinstance(res, dict) or res.get("n_unobserved_plates") != want):
+                    pred = "a whole marker (%s, n_unobserved_plates = %d) was answered with %s" % (cls, want, common.short(res, 200))
+            except Exception as e:      # noqa: BLE001 - the function names no directory itself: an exception leaves examine without naming one
+                impl = common.ImplError(e)
+                pred = ("validate_job_dir_and_return_meta raised %s on a job directory whose screen_metadata.json is %s: the script ends without "
+                        "naming the directory (it must count as incomplete, like one without marker)" % (type(e).__name__, cls))
+        finally:
+            shutil.rmtree(d, ignore_errors=True)
+        return dict(wire=[9, [] if enc is None else [enc]], impl=impl, pred=pred, features=["marker", "marker:" + cls] + (["trivial"] if which is None else []))
+    if k == "examine-torn":
+        bs, tree = desc["bs"], desc["tree"]
+        rng2 = random.Random(desc["seed"])
+        odd = {}
+        for i, pls in tree:
+            for j, pd in pls:
+                if rng2.random() < desc["p"]:
+                    cands = [c for c in marker_contents(rng2.randint(0, 3), rng2) if c[3] is None]
+                    odd[(i, j)] = rng2.choice(cands)
+        tree2 = [[i, [[j, (pd[:6] + [[]]) if (i, j) in odd else pd] for j, pd in pls]] for i, pls in tree]
+
+        def ask(dirpath):
+            mod = load_script()
+            try:
+                ni, np_, meta, scr = mod.examine_output_dir_to_determine_current_iteration(dirpath, bs)
+                r0 = Runner.__new__(Runner)
+                r0.out, r0.scr_dir = dirpath, None
+                return [0, [ni, np_, opt(None if meta is None else meta["n_unobserved_plates"]), opt(None if scr is None else r0.sp(scr))]]
+            except RuntimeError as e:
+                mm = re.search(r"Consider deleting this directory to continue simulation: (.*)$", str(e))
+                m2 = mm and re.fullmatch(re.escape(dirpath) + r"/iter_(-?\d+)/plate_(-?\d+)", mm.group(1))
+                if not m2:
+                    return [3, 7, type(e).__name__, str(e)[:200]]
+                return [1, 1 if "invalid structure" in str(e) else 2, int(m2.group(1)), int(m2.group(2))]
+            except ValueError as e:
+                return [3, 70, type(e).__name__, str(e)[:200]]
+            except Exception as e:      # noqa: BLE001
+                return [3, 7, type(e).__name__, str(e)[:200]]
+        d = _tmpdir()
+        try:
+            a, b = os.path.join(d, "a"), os.path.join(d, "b")
+            write_tree(a, tree2)
+            write_tree(b, tree2)
+            os.makedirs(a, exist_ok=True)
+            os.makedirs(b, exist_ok=True)
+            for (i, j), c in odd.items():
+                put_marker(os.path.join(a, "iter_%d" % i, "plate_%d" % j), c[1])
+            impl = ask(a)
+            ref = ask(b)       # the same tree with those marker files deleted
+        finally:
+            shutil.rmtree(d, ignore_errors=True)
+        pred = None
+        if impl[0] == 3:
+            pred = ("examine ended with %s (%s) on a tree whose markers %s are unreadable or not the metadata of a step: it neither answered nor named a directory"
+                    % (impl[2], impl[3], sorted(odd)))
+        elif impl != ref:
+            pred = ("markers %s are unreadable / hold no n_unobserved_plates, yet examine answers %s where the same tree without those files gives %s"
+                    % (sorted((ij, c[0]) for ij, c in odd.items()), impl, ref))
+        impl = impl[:2] if impl[0] == 3 else impl
+        feats = ["examine-torn"] + (["trivial"] if not odd else ["odd-markers=%d" % min(len(odd), 3)]) + sorted({"marker:" + c[0] for c in odd.values()}) \
+            + (["named-odd-marker-dir"] if impl[0] == 1 and (impl[2], impl[3]) in odd else []) + (["named-dir"] if impl[0] == 1 else [])
+        wire = [10, probed_tfix(), probed_fixed(), bs, [[i, [[j, pd + [[]]] for j, pd in pls]] for i, pls in tree2], [list(ij) for ij in sorted(odd)]]
+        return dict(wire=wire, impl=impl, pred=pred, features=feats)
     if k == "get_args":
         plan = desc["plan"]
         argv = ga_argv(plan)
@@ -1625,4 +1816,6 @@ def extra(tier):
     res.append(("spawned fake nextflow == in-process fake", [a.final, a.log] == [b.final, b.log] and any(g[0] == 4 for g in a.log),
                 "log lengths %d/%d" % (len(a.log), len(b.log))))
     res.append(("probe of the real examine", True, "PROBED_FIXED=%d (1 = /repo skips an empty iteration directory)" % probed_fixed()))
+    res.append(("probe of the real validate_job_dir_and_return_meta", True,
+                "PROBED_TFIX=%d (1 = /repo takes an unreadable completion marker for a missing one)" % probed_tfix()))
     return res
